@@ -247,6 +247,12 @@ def _run(case, out, w):
                 out.fail("send", "send:raises:%s" % type(err).__name__, {"step": step, "error": repr(err)[:300], "kind": pk})
                 return out
         elif kind in ("deliver", "dup", "corrupt"):
+            if kind in ("dup", "corrupt"):
+                # faults hit message stanzas: let the server work through its queue until one is waiting
+                for _ in range(60):
+                    if not server.outq or any(q[2].get("kind") == "message" for q in server.outq):
+                        break
+                    server.step(clients, 0)
             if not server.outq:
                 continue
             k = op[1] % len(server.outq)
@@ -303,6 +309,17 @@ def _run(case, out, w):
             out.label("restart")
         elif kind == "loop":
             clients[w.jids[op[1] % len(w.jids)]].pump()
+        elif kind == "advance":
+            # the server works through its queue in order until a message stanza is waiting for delivery
+            for _ in range(60):
+                if not server.outq or any(q[2].get("kind") == "message" for q in server.outq):
+                    break
+                server.step(clients, 0)
+        elif kind == "settle":
+            # the server delivers everything it has queued, in order
+            if not A.settle(server, clients):
+                out.fail("drain", "queues_do_not_drain", {"step": step, "left": len(server.outq)})
+                return out
         else:
             raise ValueError(kind)
         for jid, c in clients.items():
@@ -452,7 +469,8 @@ def script_strategy(tier):
     op = st.one_of(send, send, send,
                    st.tuples(st.just("deliver"), sel).map(list), st.tuples(st.just("deliver"), st.just(0)).map(list),
                    st.tuples(st.just("dup"), sel).map(list), st.tuples(st.just("corrupt"), sel, sel).map(list),
-                   st.tuples(st.just("restart"), sel).map(list), st.tuples(st.just("loop"), sel).map(list))
+                   st.tuples(st.just("restart"), sel).map(list), st.tuples(st.just("loop"), sel).map(list),
+                   st.just(["settle"]), st.just(["advance"]), st.just(["advance"]), st.just(["advance"]))
 
     @st.composite
     def build(draw):
@@ -475,8 +493,10 @@ def _enum_basic():
     yield {"sub": "conversation", "accounts": 2, "registered": [True, True], "groups": [[0, 1], [0, 1]],
            "ops": [["send", 0, 0, "text", o], ["dup", 1], ["send", 0, 0, "text", o], ["corrupt", 1, 0], ["send", 1, 0, "text", o]]}
     yield {"sub": "conversation", "accounts": 3, "registered": [True, True, True], "groups": [[0, 1, 2], [0, 2]],
-           "ops": [["send", 0, 1, "text", o], ["deliver", 0], ["deliver", 0], ["deliver", 0], ["deliver", 0], ["deliver", 0], ["deliver", 0],
-                   ["restart", 1], ["send", 1, 0, "text", o], ["send", 0, "g0", "text", o], ["restart", 0], ["send", 0, "g0", "text", o]]}
+           "ops": [["send", 0, 1, "text", o], ["settle"], ["restart", 1], ["send", 1, 0, "text", o], ["settle"], ["send", 0, "g0", "text", o],
+                   ["settle"], ["restart", 0], ["send", 0, "g0", "text", o], ["settle"], ["restart", 1], ["send", 1, "g0", "image", o],
+                   ["settle"], ["restart", 1], ["send", 1, "g0", "text", o], ["send", 2, "g1", "text", o], ["settle"], ["restart", 2],
+                   ["send", 2, "g1", "location", o]]}
 
 
 def plan(tier):
@@ -484,7 +504,7 @@ def plan(tier):
     return {
         "shards": 16,
         "enumerations": [("basic_conversations", _enum_basic)],
-        "strategies": [("conversations", script_strategy(tier), 40 if quick else 700)],
+        "strategies": [("conversations", script_strategy(tier), 60 if quick else 700)],
         "shrink": "ddmin",
         "budget_s": 200 if quick else 2400,
         "hard_limit_s": 600 if quick else 3600,
